@@ -58,11 +58,12 @@ async def run(root, top, method, targets):
     srv = TestServer(real_aio.build_app(root, "/"))
     await srv.start_server()
     try:
-        for t in targets:
+        for i, t in enumerate(targets):
             before = snap(top, root)
             body, ctype = b"", None
             if method in ("PUT", "POST"):
-                body, ctype = R.real_body("x.ics", b"xq", "text/calendar"), "text/calendar"
+                # (a UID of its own per request: otherwise all but the first write are refused as UID conflicts)
+                body, ctype = R.real_body("x.ics", b"xq", "text/calendar").replace(b"UID:u71", b"UID:t%d" % i), "text/calendar"
             elif method == "PROPFIND":
                 body, ctype = b'<D:propfind xmlns:D="DAV:"><D:prop><D:getetag/><D:resourcetype/></D:prop></D:propfind>', "text/xml"
             elif method == "PROPPATCH":
